@@ -82,6 +82,9 @@ def ref_walk(root, deviations=()):
             go(node.having, 'expr', 'Select.having', me)
             order_fields(node.order_by, 'Select.order_by.field', me)
         elif isinstance(node, (A.Union, A.Intersect, A.Except)):
+            # WITH ... ( select UNION select ): the parser keeps the CTE list on the set operation
+            for c in (getattr(node, 'cte', None) or ()):
+                go(c.query, 'query', 'Union.cte.query', me)
             go(node.left, 'query', 'Union.left', me)
             go(node.right, 'query', 'Union.right', me)
         elif isinstance(node, A.Join):
